@@ -1,8 +1,9 @@
 """C06 - output records are faithful snapshots in a well-formed ragged or dense file."""
 from contracts import output as O
+from contracts import output_create as OC
 from contracts import timekeeper as K
 
-UNITS = [O.Write("sparse"), O.Write("dense"), O.Write("sparse", lonlat=True), O.WritePV("sparse"), O.WritePV("sparse", time_typed=True), K.TKNcTime("s"), K.TKStep2NcTime("s")]
+UNITS = [O.Write("sparse"), O.Write("dense"), O.Write("sparse", lonlat=True), O.WritePV("sparse"), O.WritePV("sparse", time_typed=True), K.TKNcTime("s"), K.TKStep2NcTime("s")] + list(OC.CREATE_UNITS)
 LEMMAS = []
 NATIVE = [dict(name="whole runs on real Output/State/TimeKeeper read back with the documented retrieval rule", harness="output_runs_bounded", kind="bounded", timeout=3000)]
 LEVEL = "proof"
